@@ -176,6 +176,8 @@ Check (C13_two_node_exactly_one :
     let s := run2 (sys0 cfA cfB) ms in
     settled (fst (n_st (nd x s))) -> In (OSent r) (outs x s) ->
     terms r (outs x s) = 1%nat \/ In r (cancel_reqs (evs_of (log x s)))).
+Check (C13_two_node_responder_once :
+  forall (cfA cfB : cfg) (ms : list mv) (x : bool), NoDup (req_chans (log x (run2 (sys0 cfA cfB) ms)))).
 Check (C13_two_node_request_identical :
   forall (cfA cfB : cfg) (ms : list mv) (b : bool) e o (cr irid p lq tq : N),
     let s := run2 (sys0 cfA cfB) ms in
